@@ -20,6 +20,8 @@ Main theorems
     This is the hypothesis that excludes exactly the known finding D14.
   * `fixed_offset_MidnightsOK` : every zone without transitions (UTC, time.FixedZone, Etc/GMT±h) satisfies it, for
     every kind — so `C12_calendar_fixed_offset` is unconditional.
+  * `dstZone_MidnightsOK` : a zone WITH a transition (UTC → UTC+1 at 02:00) satisfies the hypothesis for every kind
+    (non-vacuity beyond fixed offsets).
   * `C12_at` : the four pointwise laws at one instant `t` from the EXECUTABLE per-instance check
     `checkAt k z t = true` (`checkMid_sound`); this is the form the correspondence driver evaluates on every case.
   * `C12_fixed` : fixed durations, every zone, every `d > 0`, all instants of `FixedRange z d`
@@ -150,6 +152,44 @@ theorem C12_calendar_fixed_offset {k : Kind} (hk : ∀ d, k ≠ .fixed d) (o : I
 /-- non-vacuity: UTC and UTC+05:30 meet the hypothesis; the theorem speaks about every instant of them -/
 example : MidnightsOK ⟨0, []⟩ .week ∧ MidnightsOK ⟨19800, []⟩ .month :=
   ⟨fixed_offset_MidnightsOK 0 _, fixed_offset_MidnightsOK 19800 _⟩
+
+/-! ### non-vacuity with a zone that has a transition -/
+
+/-- a DST-like zone: UTC until 1970-01-01T02:00Z, then UTC+1 (02:00 → 03:00 local, far from midnight) -/
+def dstZone : Zone := ⟨0, [(7200, 3600)]⟩
+
+theorem dstZone_offsetAt (s : Int) : dstZone.offsetAt s = if s < 7200 then 0 else 3600 := by
+  unfold Zone.offsetAt Zone.lookup dstZone lookupFrom
+  simp only
+  split <;> rfl
+
+theorem dstZone_goDateSec (u : Int) : goDateSec dstZone u = if u < 7200 then u else if u < 10800 then u else u - 3600 := by
+  rw [goDateSec_eq_offsets dstZone (by unfold ZoneSorted dstZone sortedFrom alpha; simp [sortedFrom])]
+  simp only [dstZone_offsetAt]
+  split
+  · simp only [Int.sub_zero]; rw [if_pos ‹_›]; omega
+  · split
+    · rw [if_pos (by omega)]; omega
+    · rw [if_neg (by omega)]
+
+theorem dstZone_MidnightsOK (k : Kind) : MidnightsOK dstZone k := by
+  refine ⟨fun D _ => ⟨?_, fun s => ?_⟩, fun _ P c _ h0 h1 => ?_⟩
+  · unfold mid localSecs
+    rw [dstZone_goDateSec, dstZone_offsetAt]
+    repeat' split
+    all_goals omega
+  · unfold mid localDay localSecs
+    rw [dstZone_goDateSec, dstZone_offsetAt]
+    repeat' split
+    all_goals omega
+  · unfold localDay localSecs
+    rw [dstZone_goDateSec, dstZone_offsetAt]
+    repeat' split
+    all_goals omega
+
+/-- so all six laws hold for every instant of that zone, for every calendar kind -/
+example : Tiles (start .week dstZone) («end» .week dstZone) := C12_week dstZone (dstZone_MidnightsOK _)
+example : Tiles (start .month dstZone) («end» .month dstZone) := C12_month dstZone (dstZone_MidnightsOK _)
 
 /-! ## the pointwise, executable form -/
 
